@@ -74,6 +74,27 @@ impl E {
             E::Pow(a, n, d) => format!("(pow {} {}/{})", a.sexpr(units), n, d),
         }
     }
+    /// all trees obtained by replacing one subtree by one of its children
+    fn reductions(&self) -> Vec<E> {
+        let mut v = Vec::new();
+        match self {
+            E::Num(_) | E::Unit(..) => {}
+            E::Neg(a) | E::Pow(a, _, _) => {
+                v.push((**a).clone());
+                for r in a.reductions() {
+                    v.push(match self { E::Neg(_) => E::Neg(Box::new(r)), E::Pow(_, n, d) => E::Pow(Box::new(r), *n, *d), _ => unreachable!() });
+                }
+            }
+            E::Add(a, b) | E::Sub(a, b) | E::Mul(a, b) | E::Div(a, b) => {
+                v.push((**a).clone());
+                v.push((**b).clone());
+                let mk = |x: E, y: E| match self { E::Add(..) => E::Add(Box::new(x), Box::new(y)), E::Sub(..) => E::Sub(Box::new(x), Box::new(y)), E::Mul(..) => E::Mul(Box::new(x), Box::new(y)), _ => E::Div(Box::new(x), Box::new(y)) };
+                for r in a.reductions() { v.push(mk(r, (**b).clone())); }
+                for r in b.reductions() { v.push(mk((**a).clone(), r)); }
+            }
+        }
+        v
+    }
     fn size(&self) -> usize {
         match self {
             E::Num(_) | E::Unit(..) => 1,
@@ -200,7 +221,8 @@ impl<'a> Gen<'a> {
     }
 }
 
-fn run_expr(g: &Gen, out: &mut Out, e: &E, from_text: Option<&str>) {
+/// evaluates one tree; returns the oracle's complaint, if any (`emit` = also write the lines and counts)
+fn run_expr_inner(g: &Gen, out: &mut Out, e: &E, from_text: Option<&str>, emit: bool) -> Option<(String, String, String)> {
     let units = g.units;
     let src = e.src();
     let sx = e.sexpr(units);
@@ -229,45 +251,66 @@ fn run_expr(g: &Gen, out: &mut Out, e: &E, from_text: Option<&str>) {
     let ans = canon_nan(&ans);
     if ans.starts_with("err type") || ans.starts_with("err other") {
         // the generator produced something the checker rejects (e.g. exponent not const-evaluable): not a case
-        out.count("generator_rejected");
-        return;
+        if emit { out.count("generator_rejected"); }
+        return None;
     }
-    out.line(&format!("eval {}", sx), &ans);
-    out.case(&sx, e.size() >= 3);
-    out.count(&format!("size_{}", (e.size() / 4) * 4));
+    if emit {
+        out.line(&format!("eval {}", sx), &ans);
+        out.case(&sx, e.size() >= 3);
+        out.count(&format!("size_{}", (e.size() / 4) * 4));
+    }
     let key = format!("eval:{}", sx);
+    let mut complaint: Option<String> = None;
     if ans.starts_with("panic") {
-        out.oracle_fail(&key, &input, &ans);
-        return;
-    }
-    if ans == "err incompatible" || ans == "err nonrational" || ans.starts_with("err runtime") {
-        out.oracle_fail(&key, &input, &format!("accepted expression fails at run time: {}", ans));
-        return;
-    }
-    if let Some((v, unit)) = parse_answer(&ans) {
-        out.count("result_ok");
-        let Some(fs) = parse_unit(&unit) else { return };
+        complaint = Some(ans.clone());
+    } else if ans == "err incompatible" || ans == "err nonrational" || ans.starts_with("err runtime") {
+        complaint = Some(format!("accepted expression fails at run time: {}", ans));
+    } else if let Some((v, unit)) = parse_answer(&ans) {
+        if emit { out.count("result_ok"); }
+        let fs = parse_unit(&unit)?;
         if let Some((want, err, dim)) = e.oracle(units) {
             // dimension by exponent vectors
             let got_dim = units.oracle_dimension(&fs);
             if got_dim != dim && v != 0.0 {
-                out.oracle_fail(&key, &input, &format!("result unit {} has dimension {:?}, dimensional analysis gives {:?}", unit, got_dim, dim));
+                complaint = Some(format!("result unit {} has dimension {:?}, dimensional analysis gives {:?}", unit, got_dim, dim));
             }
             let phys = v * units.oracle_factor(&fs);
             if want.is_finite() && phys.is_finite() && want.abs() < 1e280 && (want == 0.0 || want.abs() > 1e-280) && err.is_finite() {
-                out.count("oracle_value_checked");
+                if emit { out.count("oracle_value_checked"); }
                 let tol = 64.0 * err + 64.0 * f64::EPSILON * want.abs() + 1e-300;
-                if (phys - want).abs() > tol {
-                    out.oracle_fail(&key, &input, &format!("result {:e} (in base units) differs from dimensional arithmetic {:e} (tolerance {:e})", phys, want, tol));
+                if (phys - want).abs() > tol && complaint.is_none() {
+                    complaint = Some(format!("result {:e} (in base units) differs from dimensional arithmetic {:e} (tolerance {:e})", phys, want, tol));
                 }
-            } else {
+            } else if emit {
                 out.count("oracle_value_skipped_extreme");
             }
-        } else {
+        } else if emit {
             out.count("oracle_value_skipped_singular");
         }
-    } else {
+    } else if emit {
         out.count(&format!("result_{}", ans.replace(' ', "_")));
+    }
+    complaint.map(|c| (key, input, c))
+}
+
+fn run_expr(g: &Gen, out: &mut Out, e: &E, from_text: Option<&str>) {
+    if let Some((key, input, what)) = run_expr_inner(g, out, e, from_text, true) {
+        // shrink: replace subtrees by their children while the oracle still complains
+        let mut cur = e.clone();
+        let (mut k, mut i, mut w) = (key, input, what);
+        let mut budget = 400;
+        'outer: loop {
+            for cand in cur.reductions() {
+                if budget == 0 { break 'outer; }
+                budget -= 1;
+                if let Some((k2, i2, w2)) = run_expr_inner(g, out, &cand, None, false) {
+                    cur = cand; k = k2; i = i2; w = w2;
+                    continue 'outer;
+                }
+            }
+            break;
+        }
+        out.oracle_fail(&k, &i, &w);
     }
 }
 
